@@ -287,6 +287,10 @@ def _pyval(v, z3):
     return str(v)
 
 
+PORTFOLIO = [{"smt.mbqi": False}, {"smt.random_seed": 7}, {"smt.mbqi": False, "smt.random_seed": 3}, {"smt.random_seed": 11, "smt.qi.eager_threshold": 100.0}]
+PORTFOLIO_MS = int(os.environ.get("VERIF_PORTFOLIO_MS", "5000"))
+
+
 def solve_one(job):
     """job = (key, smt2 text). returns (key, verdict, solver, seconds, model)"""
     key, smt2 = job
@@ -307,10 +311,26 @@ def solve_one(job):
             if rr == "sat":
                 return key, "sat", "z3-smallscope", time.time() - t0, model
             cand = model if rr == "sat-candidate" else None
-            s = z3.Solver()
-            s.set("timeout", Z3_TIMEOUT_MS)
-            s.from_string(smt2)
-            r = s.check()
+            # portfolio: quantifier instantiation is sensitive to term order and seeds; a few short differently
+            # configured attempts decide most valid VCs that one long default run leaves open (any `unsat` is sound)
+            r = z3.unknown
+            for cfg in PORTFOLIO:
+                s = z3.Solver()
+                s.set("timeout", PORTFOLIO_MS)
+                for pk, pv in cfg.items():
+                    try:
+                        s.set(pk, pv)
+                    except z3.Z3Exception:
+                        pass
+                s.from_string(smt2)
+                r = s.check()
+                if r != z3.unknown:
+                    break
+            if r == z3.unknown:
+                s = z3.Solver()
+                s.set("timeout", Z3_TIMEOUT_MS)
+                s.from_string(smt2)
+                r = s.check()
             if r == z3.unknown and cand is not None:
                 # only an approximate counterexample is available: a candidate, to be confirmed on the real code
                 return key, "sat-candidate", "z3-smallscope(approx)", time.time() - t0, cand
